@@ -299,3 +299,60 @@ def run_gauss_corr(ctx, n_cases):
         if model.get("specAgrees") is not True:
             # the proved refinement evaluated on this instance (a cross-check of the theorem's reading)
             ctx.disagree("GaussNM refinement instance (model internal)", case, model.get("specAgrees"), True)
+
+
+# ---------------------------------------------------------------- K3 part 3: bosonic index algebra
+
+def run_bos_corr(ctx, n_cases):
+    """`BosonicModes.expandXY` + `apply_channel` (update_means / update_covs with the from_xp permutation) on rational
+    data vs `SFV.Model.Bosonic`; thewalrus `symplectic.expand` is validated entrywise against the model's `expand`."""
+    if not ctx.proof_ok:
+        return
+    from strawberryfields.backends.bosonicbackend.bosoniccircuit import BosonicModes, to_xp, from_xp
+    rng = ctx.rng
+    reqs, reals, cases = [], [], []
+    q = lambda: Fraction(rng.randint(-6, 6), rng.choice([1, 2, 4]))
+    for it in range(n_cases):
+        n = rng.randint(1, 5)
+        k = rng.randint(1, min(2, n))
+        modes = rng.sample(range(n), k)
+        X = [[q() for _ in range(2 * k)] for _ in range(2 * k)]
+        Ysym = [[q() for _ in range(2 * k)] for _ in range(2 * k)]
+        Y = [[Ysym[i][j] + Ysym[j][i] for j in range(2 * k)] for i in range(2 * k)]
+        A = [[q() for _ in range(2 * n)] for _ in range(2 * n)]
+        V = [[A[i][j] + A[j][i] for j in range(2 * n)] for i in range(2 * n)]
+        mu = [q() for _ in range(2 * n)]
+        bm = BosonicModes(n, 1)
+        bm.means = np.array([[float(x) for x in mu]])
+        bm.covs = np.array([[[float(x) for x in row] for row in V]])
+        bm.weights = np.array([1.0])
+        Xf = np.array([[float(x) for x in row] for row in X])
+        Yf = np.array([[float(x) for x in row] for row in Y])
+        X2, Y2 = bm.expandXY(modes, Xf, Yf)
+        bm.apply_channel(X2, Y2)
+        reqs.append(dict(op="bos.apply", n=n, modes=modes, X=[[fr(x) for x in r] for r in X], Y=[[fr(x) for x in r] for r in Y],
+                         V=[[fr(x) for x in r] for r in V], mu=[fr(x) for x in mu]))
+        reals.append(dict(X2=X2, Y2=Y2, mu=bm.means[0], V=bm.covs[0], fromXp=list(from_xp(n)), toXp=list(to_xp(n))))
+        cases.append(dict(n=n, modes=modes))
+    rat = lambda v: v[0] / v[1]
+    for req, real, case, model in zip(reqs, reals, cases, ctx.lean(reqs)):
+        ctx.corr_cases += 1
+        ctx.count("bos-corr:k=%d" % len(case["modes"]), dict(case, X=req["X"], mu=req["mu"]), case["n"] >= 2 and case["modes"] != [0],
+                  sample=case)
+        if "__error__" in model:
+            ctx.disagree("Bosonic driver error", case, model, None)
+            continue
+        if model["fromXp"] != [int(x) for x in real["fromXp"]] or model["toXp"] != [int(x) for x in real["toXp"]]:
+            ctx.disagree("Bosonic.fromXp/toXp vs from_xp/to_xp", case, (model["fromXp"], model["toXp"]),
+                         (list(map(int, real["fromXp"])), list(map(int, real["toXp"]))))
+            continue
+        for key in ("X2", "Y2", "V"):
+            m = np.array([[rat(z) for z in row] for row in model[key]])
+            if np.max(np.abs(m - real[key]), initial=0) > 1e-9 * max(1.0, float(np.max(np.abs(m), initial=0))):
+                ctx.disagree(f"Bosonic.{key} vs bosoniccircuit ({'thewalrus expand / expandXY' if key != 'V' else 'update_covs'})",
+                             case, str(m), str(real[key]))
+                break
+        else:
+            m = np.array([rat(z) for z in model["mu"]])
+            if np.max(np.abs(m - real["mu"]), initial=0) > 1e-9 * max(1.0, float(np.max(np.abs(m), initial=0))):
+                ctx.disagree("Bosonic.updateMeans vs update_means", case, str(m), str(real["mu"]))
